@@ -177,6 +177,38 @@ fn s6() {
     }
 }
 
+/// S7: a large character class (ten explicit ranges) on one shared object: threads look up
+/// *different* member characters for the first time concurrently, then every character is
+/// re-tested (lazily filled per-object lookup tables must not lose entries). Windows
+/// inside such helpers contain no instrumentation point, so only this engine can reach them.
+const PAT7: &str = r"^[a-cf-hk-mp-rt-vx-z0-24-68-9A-C]$";
+
+fn s7() {
+    let chars = ["a", "g", "l", "q", "0", "5", "y", "-"];
+    let exp: Vec<bool> = {
+        let fresh = Regex::xpath(PAT7, "").unwrap();
+        chars.iter().map(|c| fresh.is_match(c)).collect()
+    };
+    let shared = Arc::new(Regex::xpath(PAT7, "").unwrap());
+    let mut hs = Vec::new();
+    for t in 0..4usize {
+        let re = shared.clone();
+        hs.push(thread::spawn(move || {
+            (re.is_match(chars[2 * t]), re.is_match(chars[2 * t + 1]))
+        }));
+    }
+    let mut got = Vec::new();
+    for h in hs {
+        let (a, b) = h.join().unwrap();
+        got.push(a);
+        got.push(b);
+    }
+    let again: Vec<bool> = chars.iter().map(|c| shared.is_match(c)).collect();
+    let f = |v: &[bool]| v.iter().map(|b| b.to_string()).collect::<Vec<_>>();
+    check("S7 concurrent first lookups", &f(&got), &f(&exp));
+    check("S7 re-test on the used object", &f(&again), &f(&exp));
+}
+
 fn main() {
     let which = std::env::args().nth(1).unwrap_or_else(|| "S1".to_string());
     match which.as_str() {
@@ -186,6 +218,7 @@ fn main() {
         "S4" => s4(),
         "S5" => s5(),
         "S6" => s6(),
+        "S7" => s7(),
         // self-test of the stage's failure reporting
         "FAIL" => check("FAIL selftest", &["a".to_string()], &["b".to_string()]),
         other => {
